@@ -9,7 +9,7 @@ CONSTANTS
   ParseTexts <- ParseTables
   Markers <- MarkersMore
   MaxMsgs = 1
-  MaxMarkers = 3
+  MaxMarkers = 2
 INVARIANT TypeOK
 INVARIANT StampsTitleSection
 INVARIANT CleanAfterStartPage
